@@ -1,6 +1,7 @@
 import Driver.Util
 import MpcVerif.Model.Sha2pc
 import MpcVerif.Model.Sha2pcProc
+import MpcVerif.Model.Sha2pcEnv
 import Std.Data.HashMap
 
 /-!
@@ -357,6 +358,46 @@ def runHist (k : Nat) (refs : Array (Array String)) (sched : List Ev) : String :
     (stm, outs.push (status ++ "/" ++ procStr k stm))
   "hist " ++ ";".intercalate outs.toList
 
+/-! ### histories with an environment per step (Model/Sha2pcEnv.lean) -/
+
+/-- `p<GOMAXPROCS>g<GOGC percent, -1 = off>w<word bits>` -/
+def parseEnv (s : String) : Option Env :=
+  match s.toList with
+  | 'p' :: rest =>
+    match (String.ofList rest).splitOn "g" with
+    | [p, r] =>
+      match r.splitOn "w" with
+      | [g, w] => do
+        let p ← p.toNat?
+        let w ← w.toNat?
+        let gc ← if g == "-1" then some none else g.toNat?.map some
+        pure { procs := p, gc := gc, wordBits := w }
+      | _ => none
+    | _ => none
+  | _ => none
+
+def parseEventE (s : String) : Option EvE :=
+  match s.splitOn "@" with
+  | [e, env] => do
+    let e ← parseEvent e
+    let env ← parseEnv env
+    pure ⟨e, env⟩
+  | _ => none
+
+/-- Runs the history event by event with `Proc.stepE` on the model's
+implementation, which is the CONSTANT family (`EnvCfg.const`: the model has no
+environment parameter); output as `runHist`. -/
+def runHistE (k : Nat) (refs : Array (Array String)) (sched : List EvE) : String :=
+  let impl : EnvCfg tagTy := EnvCfg.const fun i => tableRounds (refs.getD i #[])
+  let init : Proc tagTy := fun _ => {}
+  let (_, outs) := sched.foldl (init := (init, (#[] : Array String))) fun (st, outs) e =>
+    let status := statusStr (Proc.stepResE impl st e)
+    let st' := Proc.stepE impl st e
+    let arr := (Array.range (k + 1)).map fun i => st' i
+    let stm : Proc tagTy := fun j => if j < k then arr.getD j {} else st' j
+    (stm, outs.push (status ++ "/" ++ procStr k stm))
+  "histe " ++ ";".intercalate outs.toList
+
 /-! ### state and dispatch -/
 
 structure State where
@@ -462,6 +503,14 @@ def handle (st : State) (cmd : String) (args : List String) : State × String :=
       let refs := ((refs.splitOn "|").map fun r => (r.splitOn ",").toArray).toArray
       if refs.size ≠ k ∨ refs.any (·.size ≠ 6) ∨ evs.any (fun e => e.sess ≥ k) then (st, "bad-op")
       else (st, runHist k refs evs)
+    | _, _ => (st, "bad-op")
+  | "histe", [k, refs, sched] =>
+    match k.toNat?, (sched.splitOn ",").mapM parseEventE with
+    | some k, some evs =>
+      let refs := ((refs.splitOn "|").map fun r => (r.splitOn ",").toArray).toArray
+      if refs.size ≠ k ∨ refs.any (·.size ≠ 6) ∨ evs.any (fun e => e.ev.sess ≥ k) ∨ evs.any (fun e => e.env.procs = 0)
+      then (st, "bad-op")
+      else (st, runHistE k refs evs)
     | _, _ => (st, "bad-op")
   | _, _ => (st, "bad-op")
 
